@@ -13,6 +13,16 @@ def merge(merge_expr: exp.Expression) -> list[exp.Expression]:
     return [_create_merge_candidates(merge_expr), *_mutations(merge_expr), _counts(merge_expr)]
 
 
+def _sql(e: exp.Expression) -> str:
+    # the statements are pieced together as text and parsed again: in the dialect the MERGE was written in,
+    # so that snowflake-specific functions and escapes in its clauses survive the round trip
+    return e.sql(dialect="snowflake")
+
+
+def _parse(sql: str) -> exp.Expression:
+    return sqlglot.parse_one(sql, read="snowflake")
+
+
 def _alias_or_name(table: exp.Expression) -> exp.Identifier:
     """The identifier used to refer to the columns of a table or subquery, ie: its alias if it has one."""
     ident = alias.this if (alias := table.args.get("alias")) else table.this
@@ -42,7 +52,7 @@ def _create_merge_candidates(merge_expr: exp.Merge) -> exp.Expression:
     # will include the source table identifier
     values.update(
         map(
-            str,
+            _sql,
             {
                 c
                 for c in join_expr.find_all(exp.Column)
@@ -72,10 +82,10 @@ def _create_merge_candidates(merge_expr: exp.Merge) -> exp.Expression:
                 predicate = exp.And(this=_paren(predicate), expression=_paren(condition))
 
             if isinstance(then, exp.Update):
-                case_when_clauses.append(f"WHEN {predicate} THEN {w_idx}")
+                case_when_clauses.append(f"WHEN {_sql(predicate)} THEN {w_idx}")
                 values.update(_source_columns([c.expression for c in then.expressions], source_id))
             elif isinstance(then, exp.Var) and then.name.upper() == "DELETE":
-                case_when_clauses.append(f"WHEN {predicate} THEN {w_idx}")
+                case_when_clauses.append(f"WHEN {_sql(predicate)} THEN {w_idx}")
             else:
                 raise AssertionError(f"Expected 'Update' or 'Delete', got {then}")
         else:
@@ -83,8 +93,8 @@ def _create_merge_candidates(merge_expr: exp.Merge) -> exp.Expression:
             assert isinstance(then, exp.Insert), f"Expected 'Insert', got {then}"
             insert_values = then.expression.expressions
             values.update(_source_columns(insert_values, source_id))
-            predicate = f"AND {_paren(condition)}" if condition else ""
-            case_when_clauses.append(f"WHEN {_alias_or_name(target_tbl)}.rowid is NULL {predicate} THEN {w_idx}")
+            predicate = f"AND {_sql(_paren(condition))}" if condition else ""
+            case_when_clauses.append(f"WHEN {_sql(_alias_or_name(target_tbl))}.rowid is NULL {predicate} THEN {w_idx}")
 
     sql = f"""
     CREATE OR REPLACE TEMPORARY TABLE merge_candidates AS
@@ -94,18 +104,18 @@ def _create_merge_candidates(merge_expr: exp.Merge) -> exp.Expression:
             {' '.join(case_when_clauses)}
             ELSE NULL
         END AS MERGE_OP
-    FROM {target_tbl}
-    FULL OUTER JOIN {source} ON {join_expr.sql()}
+    FROM {_sql(target_tbl)}
+    FULL OUTER JOIN {_sql(source)} ON {_sql(join_expr)}
     WHERE MERGE_OP IS NOT NULL
     """
 
-    return sqlglot.parse_one(sql)
+    return _parse(sql)
 
 
 def _source_columns(expressions: list[exp.Expression], source_id: exp.Identifier) -> set[str]:
     # the columns of the source that the expressions use, bare (SET v = s.v) or inside a larger expression (s.v * 2)
     return {
-        str(c)
+        _sql(c)
         for e in expressions
         for c in e.find_all(exp.Column)
         if not c.args.get("table") or (isinstance(c.args["table"], exp.Identifier) and checks.equal(c.args["table"], source_id))
@@ -126,8 +136,10 @@ def _mutations(merge_expr: exp.Merge) -> list[exp.Expression]:
     source = merge_expr.args.get("using")
     assert isinstance(source, exp.Expression)
     # merge_candidates stands in for the source, under the name the statement uses for the source's columns
-    source_tbl = _alias_or_name(source)
+    source_tbl = _sql(_alias_or_name(source))
     join_expr = merge_expr.args.get("on")
+    assert isinstance(join_expr, exp.Expression)
+    join_sql = _sql(_paren(join_expr))
     # the target of an insert can't have an alias
     insert_tbl = target_tbl.copy()
     insert_tbl.set("alias", None)
@@ -144,40 +156,40 @@ def _mutations(merge_expr: exp.Merge) -> list[exp.Expression]:
         if matched:
             if isinstance(then, exp.Var) and then.name.upper() == "DELETE":
                 delete_sql = f"""
-                    DELETE FROM {target_tbl}
+                    DELETE FROM {_sql(target_tbl)}
                     USING merge_candidates AS {source_tbl}
-                    WHERE {_paren(join_expr)}
+                    WHERE {join_sql}
                     AND {source_tbl}.merge_op = {w_idx}
                 """
-                statements.append(sqlglot.parse_one(delete_sql))
+                statements.append(_parse(delete_sql))
             elif isinstance(then, exp.Update):
                 # when the update statement has a table alias, duckdb doesn't support the alias in the set
                 # column name, so we use e.this.this to get just the column name without its table prefix
                 set_clauses = ", ".join(
-                    [f"{e.this.this} = {e.expression.sql()}" for e in then.args.get("expressions", [])]
+                    [f"{_sql(e.this.this)} = {_sql(e.expression)}" for e in then.args.get("expressions", [])]
                 )
                 update_sql = f"""
-                    UPDATE {target_tbl}
+                    UPDATE {_sql(target_tbl)}
                     SET {set_clauses}
                     FROM merge_candidates AS {source_tbl}
-                    WHERE {_paren(join_expr)}
+                    WHERE {join_sql}
                     AND {source_tbl}.merge_op = {w_idx}
                 """
-                statements.append(sqlglot.parse_one(update_sql))
+                statements.append(_parse(update_sql))
             else:
                 raise AssertionError(f"Expected 'Update' or 'Delete', got {then}")
         else:
             assert isinstance(then, exp.Insert), f"Expected 'Insert', got {then}"
-            cols = [str(c) for c in then.this.expressions] if then.this else []
+            cols = [_sql(c) for c in then.this.expressions] if then.this else []
             columns = f"({', '.join(cols)})" if cols else ""
-            values = ", ".join(map(str, then.expression.expressions))
+            values = ", ".join(map(_sql, then.expression.expressions))
             insert_sql = f"""
-                INSERT INTO {insert_tbl} {columns}
+                INSERT INTO {_sql(insert_tbl)} {columns}
                 SELECT {values}
                 FROM merge_candidates AS {source_tbl}
                 WHERE {source_tbl}.merge_op = {w_idx}
             """
-            statements.append(sqlglot.parse_one(insert_sql))
+            statements.append(_parse(insert_sql))
 
     return statements
 
@@ -226,4 +238,4 @@ def _counts(merge_expr: exp.Merge) -> exp.Expression:
     FROM merge_candidates
     """
 
-    return sqlglot.parse_one(sql)
+    return _parse(sql)
